@@ -26,8 +26,8 @@ MANIFEST = {
             "run (C09P stream: commented-AST skeleton with every comment's role, statement lines, comment pairs); proved: "
             "the commented Pratt glue keeps every comment of its token stream in order, the tree's comment pairs = the "
             "program's comments (C09_parse_keeps_comments), and tree -> emitted text for both drivers, under two decidable "
-            "grammar-shape hypotheses that the stream TESTS on every interpreter tree at item level and whose tree-level "
-            "content is PROVED of Peg.parse for every text (C09_shape_comment_texts: a comment pair's text is // + no line "
+            "grammar-shape hypotheses that the stream TESTS on every interpreter tree (flags S, V), the first of which "
+            "(forest_shape_ok) is since round C09P2 PROVED of Peg.parse for every text (C09_shape_comment_texts: a comment pair's text is // + no line "
             "feed; C09_shape_do_statement: a comment-first do_statement has no second pair; C09_shape_inner_pairs: one "
             "return_statement, last, per do_block, and the inner-pair sequences of "
             "do_statement / list_item / record_item / statement / return_statement; generic tools "
@@ -38,11 +38,12 @@ MANIFEST = {
             "quiet rules emit no pairs for EVERY grammar (C09_quiet_rules_emit_no_pairs), hence NEWLINE never yields a pair "
             "on gen/Grammar.v for every text (C09_newline_never_yields_a_pair); wf_ast of everything the parser model "
             "returns is proved (C09_parser_output_wf_ast), so the end-to-end theorems need stmt_ok without it; gen/Grammar.v "
-            "and gen/PrecTable.v are regenerated before the proof step; PARTIAL: the item-level forms of the two shape "
-            "hypotheses (C09_shape_items_full, C09_view_items_full) are stated, not proved (all three conjuncts of the shape "
-            "predicate hold at TREE level — C09_shape_comment_texts, C09_shape_inner_pairs, C09_shape_do_statement, the last by "
-            "a FIRST-byte analysis of the interpreter — what is missing is the induction over PegToItems.conv that carries "
-            "them to every nested item, and for the view predicate the inner-pair shapes of the remaining structural rules); atoms_ok of "
+            "and gen/PrecTable.v are regenerated before the proof step; the shape hypothesis forest_shape_ok is PROVED of "
+            "every Peg.parse result (C09_shape_items: tree facts C09_shape_comment_texts / C09_shape_inner_pairs / "
+            "C09_shape_do_statement — the last by a FIRST-byte analysis of the interpreter — carried through PegToItems.conv), "
+            "so C09_parse_keeps_comments_text / C09_text_to_text_lib / _cli start from the text with that hypothesis and "
+            "wf_ast discharged; PARTIAL: forest_view_ok (the item view reads every comment pair) as a fact about Peg.parse "
+            "is stated, not proved (C09_view_items_full; tested on every tree, flag V); atoms_ok of "
             "the parser's output is not derived (comment_ok forbids a bare CR inside a comment, which the grammar admits); "
             "both findings stay open; blots-wasm is not built natively, its loop is mirrored in harness/src/s_c0809.rs; "
             "no axioms",
